@@ -77,9 +77,11 @@ MICROS = [0, 1000, 5000, 50000, 120000, 999000]
 
 
 def grid(tier):
-    dates = [(2017, 7, 11, 0, 1, 2), (1999, 12, 31, 23, 59, 59), (2000, 2, 29, 12, 0, 0), (1970, 1, 1, 0, 0, 0)]
+    dates = [(2017, 7, 11, 0, 1, 2), (1999, 12, 31, 23, 59, 59), (2000, 2, 29, 12, 0, 0), (1970, 1, 1, 0, 0, 0),
+             (999, 7, 11, 0, 1, 2)]
     if tier != 'quick':
-        dates += [(2049, 12, 31, 23, 59, 58), (1969, 6, 1, 0, 0, 1), (2038, 1, 19, 3, 14, 7), (1601, 1, 1, 0, 0, 0)]
+        dates += [(2049, 12, 31, 23, 59, 58), (1969, 6, 1, 0, 0, 1), (2038, 1, 19, 3, 14, 7), (1601, 1, 1, 0, 0, 0), (2, 12, 31, 23, 59, 58),
+                  (9999, 1, 1, 0, 0, 0)]
     for d in dates:
         for us in MICROS:
             for off in OFFSETS:
